@@ -9,7 +9,9 @@ def unsafe_decode(string):
 
 def decode(string):
   validate_encoded(string)
-  return unsafe_decode(string)
+  value = unsafe_decode(string)
+  validate_decoded(value)
+  return value
 
 def validate_decoded(obj):
   if isinstance(obj, bool) or \
